@@ -169,8 +169,41 @@ def check_defaults(case, stats):
             raise Violation(case, "a freshly constructed GherkinEvents (attempt %d) hands out ids %r, expected 0..%d" % (attempt + 1, eids[:12], len(eids) - 1))
 
 
+def check_script_ids(case, stats):
+    """scripts.generate_events over several files in one invocation: one stream, ids pairwise distinct"""
+    import contextlib
+    import io
+    import json
+    import os
+    import sys
+    import scripts.generate_events as ge
+    paths = []
+    for i, t in enumerate(case["texts"]):
+        p = "ids%d-%d.feature" % (os.getpid(), i)
+        with open(p, "w", encoding="utf8", newline="") as f:
+            f.write(t)
+        paths.append(p)
+    buf = io.StringIO()
+    old = sys.argv
+    sys.argv = ["generate_events"] + paths
+    try:
+        with contextlib.redirect_stdout(buf):
+            ge.main()
+    finally:
+        sys.argv = old
+        for p in paths:
+            os.unlink(p)
+    envs = [json.loads(l) for l in buf.getvalue().splitlines() if l.strip()]
+    ids = collect_ids([e for e in envs if "source" not in e], [])
+    stats.case(tuple(case["texts"]), True, sample={"files": len(paths), "ids": len(ids)})
+    if len(set(ids)) != len(ids) or sorted(int(x) for x in ids) != list(range(len(ids))):
+        raise Violation(case, "generate_events over %d files in one run hands out ids %r (must be pairwise distinct and dense over the whole stream)" % (len(paths), sorted(ids, key=int)[:20]))
+
+
 def unit_defaults(a):
     stats = Stats()
+    docs = ["Feature: a\n @t\n Scenario: one\n  Given x\n", "Feature: b\n Scenario Outline: two <v>\n  When y <v>\n  Examples:\n   | v |\n   | 1 |\n", "Feature: c\n"]
+    sweep(stats, [{"sub": "script-ids", "texts": docs}, {"sub": "script-ids", "texts": docs[::-1] + docs[:1]}], check_script_ids)
     texts = ["Feature: f\n Scenario: s\n  Given x\n", "@t\nFeature: f\n Background:\n  Given b\n @s\n Scenario Outline: o\n  And <a>\n   | <a> |\n  Examples:\n   | a |\n   | 1 |\n   | 2 |\n",
              "Feature: f\n Rule: r\n  Scenario: s\n   * x\n    \"\"\"\n    d\n    \"\"\"\n"]
     sweep(stats, [{"sub": "defaults", "text": t} for t in texts], check_defaults)
@@ -262,7 +295,7 @@ def unit_history(a):
 
 
 def replay(case, stats):
-    return {"fresh": check_fresh, "history": check_history, "defaults": check_defaults}[case["sub"]](case, stats)
+    return {"fresh": check_fresh, "history": check_history, "defaults": check_defaults, "script-ids": check_script_ids}[case["sub"]](case, stats)
 
 
 def run(ctx):
